@@ -129,6 +129,8 @@ JustShapeDecideByPrepare(m) ==
 JustShapeDecideNoJ(m) == IF m.ph = "DECIDE" THEN TRUE ELSE JustShapeOrig(m)
 \* only the chain itself becomes a candidate, not its quorum-backed prefixes (the defect repaired by "fix: every quorum-backed prefix ...")
 AddCandOnlyFull(cs, c) == cs \cup {c}
+\* the CONVERGE filter does not insist on a PREPARE-quorum justification for a non-candidate value
+ConvOKNoPrepare(w, s, r, v, j) == v \in s.cands \/ CouldReach(w, r - 1, "COMMIT", v, TRUE)
 \* receiveOne does not compare the base of a vote with the base of the own input
 WrongBaseNever(m, inp) == FALSE
 ChainsForkX == {<<0>>, <<0, 1>>, <<0, 3>>, <<0, 5>>}   \* <<0, 5>>: right base, proposed by no honest participant
